@@ -15,6 +15,6 @@ PROP = dict(
           "distinct case JSON. With a fixed-list projection the result is optionally projected (twice) before it is filtered; the filter is asked again after the same Result object received a same-length name with its parts in another order; before the first Match is read the filter matches the same measurements in reverse order (and that Match is checked too); one fixed-list case in two has a second fixed list on another key of the same expression; names ending in a dash without digits are in the pool."),
     assumptions=["reference evaluator implements the documented boolean meaning", "Go regexp semantics for /re/ terms"],
     units=[
-        R("rapid", "A", "./c06", "TestC06Rapid", (6000, 8), (150000, 16)),
+        R("rapid", "A", "./c06", "TestC06Rapid", (8000, 16), (150000, 16)),
     ],
 )
